@@ -24,6 +24,7 @@ META = {
     "level_note": "Trusts OrderedDict.move_to_end/popitem semantics. Interleavings of modifications, capacity "
     "dynamics and failure injection are not decided by this technique.",
 }
+META["technique"] += '; constructor-parameter forwarding of the caching loaders; who-may-read the template cache'
 
 MIXIN = "liquid2.builtin.loaders.mixins.CachingLoaderMixin"
 
@@ -298,6 +299,14 @@ def run(prog: Program, res: Result) -> None:
     from checks.shared import check_no_self_stores
 
     check_no_self_stores(prog, res, "C14.R6", ("liquid2.template.Template",), "a Template handed out by a caching loader is shared by every caller, and its global_data is rebound on each cache hit; a value memoised on the instance (the merged globals of a render without arguments) keeps pointing at an earlier caller's data", 20)
+    res.rule("C14.R7", "a caching loader is configured by its caller: every __init__ parameter that CachingLoaderMixin / the wrapped loader implements reaches that initialiser as the bare parameter (namespace_key not dropped: cache keys carry the namespace; capacity not recomputed: an LRU of the requested size evicts and re-reads), and no parameter is accepted and ignored")
+    from checks.shared import check_loader_ctor_forwarding
+
+    check_loader_ctor_forwarding(prog, res, "C14.R7")
+    res.rule("C14.R8", "every cache hit goes through the mixin's hit path (environment identity, freshness, globals rebinding): no loader method outside CachingLoaderMixin reads self.cache (= C06.R11)")
+    from checks.shared import check_cache_read_ownership
+
+    check_cache_read_ownership(prog, res, "C14.R8")
     res.rule("C14.R4", "LRUCache: _cache touched only inside the LRU classes; reads and writes refresh recency; eviction pops the oldest entry, only when full, only for a new key, before the insert; ThreadSafeLRUCache wraps every accessor under the lock")
     lru = prog.cls("liquid2.utils.lru_cache.LRUCache")
     tlru = prog.cls("liquid2.utils.lru_cache.ThreadSafeLRUCache")
